@@ -22,9 +22,16 @@ static void rec_verify(const char *kind, const unsigned char *sig, const unsigne
     unsigned char *sm = malloc(mlen + 64), *out = malloc(mlen + 64); unsigned long long ol = 777; memcpy(sm, sig, 64); memcpy(sm + 64, m, mlen);
     int r2 = crypto_sign_open(out, &ol, sm, mlen + 64, pk);
     int open_ok = r2 == 0 ? (ol == mlen && memcmp(out, m, mlen) == 0) : (ol == 0);
-    fprintf(v_out, "{\"op\":\"verify\",\"kind\":\"%s\",\"honest\":%s,", kind, honest ? "true" : "false"); v_emit_bytes("sig", sig, 64); fputc(',', v_out); v_emit_bytes("m", m, mlen); fputc(',', v_out); v_emit_bytes("pk", pk, 32);
+    fprintf(v_out, "{\"op\":\"verify\",\"ph\":false,\"kind\":\"%s\",\"honest\":%s,", kind, honest ? "true" : "false"); v_emit_bytes("sig", sig, 64); fputc(',', v_out); v_emit_bytes("m", m, mlen); fputc(',', v_out); v_emit_bytes("pk", pk, 32);
     fprintf(v_out, ",\"accepted\":%s,\"open_agrees\":%s,\"open_ok\":%s}\n", r1 == 0 ? "true" : "false", (r1 == 0) == (r2 == 0) ? "true" : "false", open_ok ? "true" : "false");
     free(sm); free(out);
+}
+static void rec_verify_ph(const char *kind, const unsigned char *sig, const unsigned char *m, size_t mlen, const unsigned char *pk, int honest) {
+    crypto_sign_state st; crypto_sign_init(&st); crypto_sign_update(&st, m, mlen / 3); crypto_sign_update(&st, m + mlen / 3, mlen - mlen / 3);
+    int r1 = crypto_sign_final_verify(&st, sig, pk);
+    crypto_sign_init(&st); crypto_sign_update(&st, m, mlen); int r2 = crypto_sign_final_verify(&st, sig, pk);
+    fprintf(v_out, "{\"op\":\"verify\",\"ph\":true,\"kind\":\"%s\",\"honest\":%s,", kind, honest ? "true" : "false"); v_emit_bytes("sig", sig, 64); fputc(',', v_out); v_emit_bytes("m", m, mlen); fputc(',', v_out); v_emit_bytes("pk", pk, 32);
+    fprintf(v_out, ",\"accepted\":%s,\"open_agrees\":%s,\"open_ok\":true}\n", r1 == 0 ? "true" : "false", r1 == r2 ? "true" : "false");
 }
 /* sign "by hand" with nonce point R = r*B + T so that forged-but-consistent signatures can be made */
 static void sign_shifted(unsigned char sig[64], const unsigned char *m, size_t mlen, const unsigned char seed[32], const unsigned char *T, const unsigned char *pk_used, int recompute_h) {
@@ -63,6 +70,17 @@ int main(int argc, char **argv) {
         crypto_sign_init(&st); crypto_sign_update(&st, m, mlen); sig3[5] ^= 4; int vbad = crypto_sign_final_verify(&st, sig3, pk); sig3[5] ^= 4;
         if (i % 2 == 0) { fprintf(v_out, "{\"op\":\"sign\",\"ph\":true,"); v_emit_bytes("seed", seed, 32); fputc(',', v_out); v_emit_bytes("m", m, mlen); fputc(',', v_out); v_emit_bytes("sig", sig2, 64);
             fprintf(v_out, ",\"forms_agree\":%s}\n", (!memcmp(sig2, sig3, 64) && vph == 0 && vbad == -1) ? "true" : "false"); }
+        /* the pre-hashed multi-part verifier gets its own adversarial triples */
+        if (i % 3 == 1 || i == 0) {
+            unsigned char sp[64], pkx[32]; rec_verify_ph("ph_honest", sig2, m, mlen, pk, 1);
+            for (int kk = 1; kk <= 15; kk += (kk < 3 ? 1 : 4)) { memcpy(sp, sig2, 64); unsigned carry = 0, ok = 1; for (int q = 0; q < kk && ok; q++) { carry = 0; for (int j = 0; j < 32; j++) { unsigned v = sp[32 + j] + Lb[j] + carry; sp[32 + j] = (unsigned char) v; carry = v >> 8; } if (carry) ok = 0; }
+                if (ok) rec_verify_ph("ph_S+kL", sp, m, mlen, pk, 0); }
+            memcpy(sp, sig2, 64); sp[63] |= 0x80; rec_verify_ph("ph_S_highbit", sp, m, mlen, pk, 0);
+            for (int t = 0; t < NTOR; t += 2) { hexto(torsion_hex[t], T); rec_verify_ph("ph_A_torsion", sig2, m, mlen, T, 0); memcpy(sp, sig2, 64); memcpy(sp, T, 32); rec_verify_ph("ph_R_torsion", sp, m, mlen, pk, 0); }
+            for (int b = 0; b < 512; b += 37) { memcpy(sp, sig2, 64); sp[b / 8] ^= (unsigned char) (1 << (b % 8)); rec_verify_ph("ph_sig_bitflip", sp, m, mlen, pk, 0); }
+            memcpy(pkx, pk, 32); pkx[31] ^= 0x80; rec_verify_ph("ph_A_negated", sig2, m, mlen, pkx, 0);
+            rec_verify_ph("ph_plain_sig", sig, m, mlen, pk, 0);                       /* a plain Ed25519 signature is not a pre-hashed one */
+        }
         /* adversarial variants of this honest triple */
         if (i % 3 == 0) {
             for (int kk = 1; kk <= 15; kk++) { /* S + k*L while it still fits in 32 bytes */
